@@ -191,6 +191,12 @@ func (r *Recorder) Dup(key string) bool {
 }
 
 func (r *Recorder) Emit(e Event) {
+	if e.Kind == "skipped" {
+		return
+	}
+	if freshMode {
+		e.Scn = "F:" + e.Scn
+	}
 	if r.only != nil && !r.only[e.Scn] {
 		return
 	}
